@@ -35,6 +35,14 @@ inductive Expr where
   | call (fn : String) (args : List Expr)   -- text of the shape `fn(a, b, …)` written by a planner
   | orderBy (e : Expr) (d : Dir)            -- OrderBy
   | sub (s : Sel)                           -- a sub-select used as an object
+  -- ---- added for the LogQL metric planners (C08); additive
+  | mulOp (a b : Expr)                      -- text `a * b` (e.g. `intDiv(ts, d) * d`)
+  | divOp (a b : Expr)                      -- text `a / b` (e.g. `toFloat64(COUNT()) / 5.000000`)
+  | mapFilterKeys (keep : Bool) (keys : List Bytes) (m : Expr)  -- byWithoutFilterCol: `mapFilter((k,v) -> k [NOT ]IN ('a','b'), m)`
+  | mapAt (m : Expr) (key : Bytes)          -- `m['key']` (UnwrapPlanner)
+  | tupleAt (name : String) (i : Nat)       -- `arr_b.2` (TopKPlanner)
+  | topkSlice (isTop hasLabels : Bool) (k : Nat)  -- TopKPlanner: `arraySlice(arraySort([λ,]groupArray((par_a.value, par_a.fingerprint[, par_a.labels]))), 1, k)`
+  | arrayJoinFrom (src arr : Expr)          -- FROM `src array JOIN arr ` (Join of type "array": no ON, trailing blank)
 inductive Sel where
   | mk (withs : List (Alias × Sel)) (distinct : Bool) (cols : List Expr) (from_ : Option Expr)
        (joins : List (String × Alias × Expr)) (preWhere wher : Option Expr) (groupBy : List Expr)
@@ -72,6 +80,19 @@ def renderExpr : Expr → Bytes
   | .call fn args => b fn ++ b "(" ++ joinB (b ", ") (renderExprs args) ++ b ")"
   | .orderBy e d => renderExpr e ++ (match d with | .asc => b " asc" | .desc => b " desc")
   | .sub s => renderSel s
+  | .mulOp x y => renderExpr x ++ b " * " ++ renderExpr y
+  | .divOp x y => renderExpr x ++ b " / " ++ renderExpr y
+  | .mapFilterKeys keep keys m =>
+    b "mapFilter((k,v) -> k " ++ b (if keep then "IN" else "NOT IN") ++ b " (" ++ joinB (b ",") (keys.map quote) ++ b "), " ++
+      renderExpr m ++ b ")"
+  | .mapAt m key => renderExpr m ++ b "[" ++ quote key ++ b "]"
+  | .tupleAt name i => b name ++ b "." ++ natDigits i
+  | .topkSlice isTop hasLabels k =>
+    b "arraySlice(arraySort(" ++
+      (if isTop then b "x -> (-x.1, x.2" ++ (if hasLabels then b ", x.3" else []) ++ b ")," else []) ++
+      b "groupArray((par_a.value, par_a.fingerprint" ++ (if hasLabels then b ", par_a.labels" else []) ++ b "))), 1, " ++
+      natDigits k ++ b ")"
+  | .arrayJoinFrom src arr => renderExpr src ++ b " array JOIN " ++ renderExpr arr ++ b " "
 def renderExprs : List Expr → List Bytes
   | [] => []
   | o :: os => renderExpr o :: renderExprs os
